@@ -109,13 +109,34 @@ pub enum Ev {
     Finish(u32, String),
 }
 
+/// Timeout values at and above this sentinel stand for "effectively forever" durations, which must
+/// behave like no timeout at all (and must not, e.g., overflow a deadline computation).
+pub const HUGE: u64 = u64::MAX - 2;
+
+fn dur_of(t: u64) -> Duration {
+    match t {
+        u64::MAX => Duration::MAX,
+        x if x == u64::MAX - 1 => Duration::from_secs(u64::MAX),
+        x if x == HUGE => Duration::from_secs(i64::MAX as u64),
+        ms => Duration::from_millis(ms),
+    }
+}
+
+/// The timeout as far as the expected timeline is concerned.
+fn effective(t: Option<u64>) -> Option<u64> {
+    match t {
+        Some(x) if x >= HUGE => None,
+        other => other,
+    }
+}
+
 async fn run_op(ldap: &mut Ldap, op: &TimedOp) -> Vec<(u64, Ev)> {
     let t0 = Instant::now();
     let ms = |t0: Instant| t0.elapsed().as_millis() as u64;
     let mut evs = vec![];
     let dn = encode_behaviour(op);
     if let Some(t) = op.timeout {
-        ldap.with_timeout(Duration::from_millis(t));
+        ldap.with_timeout(dur_of(t));
     }
     match &op.spec {
         OpSpec::Single { .. } => {
@@ -187,6 +208,7 @@ fn expected(op: &TimedOp) -> (Vec<(u64, Ev)>, bool) {
     let tok = op.token;
     let mut evs = vec![];
     let mut tie = false;
+    let op = &TimedOp { token: op.token, timeout: effective(op.timeout), spec: op.spec.clone() };
     if op.timeout == Some(0) {
         // deadline "now": no response can have arrived; a search does not even start
         return (vec![(0, Ev::Timeout)], false);
@@ -252,7 +274,12 @@ fn expected(op: &TimedOp) -> (Vec<(u64, Ev)>, bool) {
 
 pub fn gen_op(rng: &mut Rng, token: u64) -> TimedOp {
     let tvals = [0u64, 1, 10, 50, 100, 1000, 60_000, 3_600_000];
-    let timeout = if rng.chance(3, 4) { Some(*rng.pick(&tvals)) } else { None };
+    let mut timeout = if rng.chance(3, 4) { Some(*rng.pick(&tvals)) } else { None };
+    let huge = rng.chance(1, 12);
+    if huge {
+        // delays are generated as for an untimed operation; the sentinel is put in afterwards
+        timeout = None;
+    }
     let near = |rng: &mut Rng, t: Option<u64>| -> u64 {
         match (t, rng.below(6)) {
             (Some(t), 0) => t,
@@ -272,6 +299,7 @@ pub fn gen_op(rng: &mut Rng, token: u64) -> TimedOp {
         let done_gap = if timeout.is_some() && rng.chance(1, 5) { None } else { Some(near(rng, timeout)) };
         OpSpec::Search { gaps, done_gap }
     };
+    let timeout = if huge { Some(*rng.pick(&[u64::MAX, u64::MAX - 1, HUGE])) } else { timeout };
     TimedOp { token, timeout, spec }
 }
 
